@@ -123,7 +123,11 @@ func buildESL(sc M) ([]byte, []eslRec) {
 		}
 		recs = append(recs, rec)
 	}
-	b.Write(prbytes("garbage", num(sc, "g")))
+	if str(sc, "gfill") == "zero" {
+		b.Write(make([]byte, num(sc, "g")))
+	} else {
+		b.Write(prbytes("garbage", num(sc, "g")))
+	}
 	out := b.Bytes()
 	cut := num(sc, "cut")
 	if cut > len(out) {
